@@ -137,11 +137,11 @@ PROPS["C03"] = {
         "'an upstream re-run that leaves its outputs' timestamps unchanged causes no re-runs' follows from the manifest being a function of (names, mtimes, cmdline, rspfile) only -- proved -- plus the trusted stat"],
 }
 PROPS["C09"] = {
-    "units": ["dirty"],
-    "probes": {"dirty": ["work::Work::record_finished", "work::Work::check_build_files_missing", "hash::build_manifest"]},
+    "units": ["dirty", "task"],
+    "probes": {"dirty": ["work::Work::record_finished", "work::Work::check_build_files_missing", "hash::build_manifest"], "task": ["task::extract_showincludes"]},
     "level": "proof",
     "assumptions": DIRTY_ASSUME + ["'discovered dependencies never change build order' is decided in unit sched (readiness is computed from ordering_ins only; tagged C01); persistence across invocations is unit db (C08: write_build/read_build carry the discovered list)",
-        "depfile reading and `/showIncludes` extraction (task.rs: run_task, extract_showincludes, read_depfile) are NOT under contract here: that the report handed to record_finished is what the command reported, and that showIncludes lines are removed from the shown output, is not decided by this check",
+        "unit task: extract_showincludes is proved to return as shown output exactly the lines that are not `Note: including file: ` lines, in order (si::shown over the trusted slice::split / strip_prefix / ends_with / to_vec wrappers), one reported name per note line, and never to panic on its [start..end] slice; run_task (process::run_command is FFI) and read_depfile (iterator adapters) are NOT under contract: that the report handed to record_finished is what the depfile says is not decided",
         "two spellings of one file map to one FileId through canonicalize_path (C13) + the trusted name->id map; here canon is an uninterpreted function"],
 }
 
@@ -234,7 +234,7 @@ LEVEL_TEXT = {
     },
     "C09": {
         "text": "Unbounded proof (Verus) on the real text of Work::record_finished: the step's discovered list after a successful command is disc_list(ids, dirtying_ins) -- a spec function of the reported names (canonicalised, mapped to file ids in report order, first occurrence kept, declared dirtying inputs dropped) in which the previous list does not occur (replaced wholesale); every other build and every existing file is unchanged (disc_replaced), so build order (ordering_ins) cannot change; discovered deps are part of the signature (build_manifest) and of the covered set of check_build_files_missing, where a missing discovered dep yields Ok(Some(f)) => dirty, and Err is proved to arise only for declared non-generated inputs or generated files without ordering.",
-        "note": "task.rs (depfile/showIncludes extraction, output filtering) not under contract. Genuine defect D12 (adopt mode dropped discovered deps) found while writing this contract and fixed in /repo (3670725).",
+        "note": "extract_showincludes (output filtering) proved in unit task; read_depfile/run_task not under contract. Genuine defect D12 (adopt mode dropped discovered deps) found while writing this contract and fixed in /repo (3670725).",
         "design_ref": "DESIGN.md §6 C09",
     },
     "C12": {
